@@ -431,10 +431,11 @@ Qed.
 
 Lemma zerosub_rec_ok d p : field_safe d -> no_nul (fst p) -> (snd p = [] \/ snd p = t_more_follow) -> rec_ok (zerosub_rec d p).
 Proof.
-  intros Hd Hn Ht. unfold zerosub_rec, rec_ok. split; [discriminate|]. split; [|reflexivity].
+  destruct p as [n t]. simpl fst. simpl snd. intros Hd Hn Ht. unfold zerosub_rec, rec_ok. simpl fst. simpl snd.
+  split; [discriminate|]. split; [|reflexivity].
   apply Forall_cons; [apply lit_safe; reflexivity|]. apply Forall_cons; [exact Hd|].
   apply Forall_cons; [apply tag_clean_safe, esc_tag_clean|]. apply Forall_cons; [|apply Forall_nil].
-  destruct Ht as [-> | ->]; apply lit_safe; reflexivity.
+  destruct Ht as [Ht | Ht]; subst t; apply lit_safe; reflexivity.
 Qed.
 
 Lemma status_zerosub_parse d fs : field_safe d -> Forall (fun f => no_nul (f_sub f)) fs ->
@@ -463,6 +464,9 @@ Proof.
   pose proof (zerosub_entries_ok fs1 H1 0) as O1. pose proof (zerosub_entries_ok fs2 H2 0) as O2.
   revert O1 O2 P1. generalize (zerosub_entries fs1 0) (zerosub_entries fs2 0).
   intros l1. induction l1 as [|p t IH]; intros l2 O1 O2 P; destruct l2 as [|q u]; simpl in P; try discriminate; [reflexivity|].
-  injection P as Pq Pt. inversion O1 as [|? ? [Hp _] O1']; inversion O2 as [|? ? [Hq _] O2']; subst.
-  f_equal; [symmetry; now apply (zerosub_rec_inj d)|now apply IH].
+  assert (Pq : zerosub_rec d q = zerosub_rec d p) by congruence.
+  assert (Pt : map (fun p => Some (zerosub_rec d p)) u = map (fun p => Some (zerosub_rec d p)) t) by congruence.
+  pose proof (Forall_inv O1) as [Hp _]. pose proof (Forall_inv O2) as [Hq _].
+  pose proof (Forall_inv_tail O1) as O1'. pose proof (Forall_inv_tail O2) as O2'.
+  f_equal; [symmetry; exact (zerosub_rec_inj d q p Hq Hp Pq)|exact (IH u O1' O2' Pt)].
 Qed.
